@@ -518,6 +518,19 @@ def extract():
     hbody = fn_body(strip_comments(read("src/server/udp_proxy.rs")),
                     r"pub async fn handle_udp_over_tcp\b.*?->\s*Result<\(\)>\s*\{", "handle_udp_over_tcp")
     g["udpConnected"] = bool(re.search(r"\budp_socket\s*\.\s*connect\s*\(", hbody))
+    # ---- which destinations the server's stream handler takes for UDP-over-TCP streams ----------
+    hsrc = strip_comments(read("src/server/handler.rs"))
+    hflat = re.sub(r"\s+", "", hsrc)
+    if len(re.findall(r"handle_udp_over_tcp\(", hsrc)) != 1:
+        raise ExtractError("server handler: expected exactly one call of handle_udp_over_tcp")
+    if 'ifdestination.addr=="udp-over-tcp.arpa"||destination.addr.ends_with(".udp-over-tcp.arpa"){' in hflat:
+        g["udpMagicRule"] = "reservedSuffix"
+    elif 'ifdestination.addr.contains("udp-over-tcp.arpa"){' in hflat:
+        g["udpMagicRule"] = "contains"
+    else:
+        raise ExtractError("server handler: the test that marks a stream as UDP-over-TCP is not a modelled rule")
+    g["udpMagicAddr"] = one(r'pub const UDP_OVER_TCP_MAGIC_ADDR\s*:\s*&str\s*=\s*"([^"\\]*)";',
+                            strip_comments(read("src/client/udp_client.rs")), "UDP_OVER_TCP_MAGIC_ADDR").group(1)
     # ---- the authentication gate of a server connection -------------------------------------
     g["authGate"] = auth_gate()
     return g
@@ -670,6 +683,17 @@ def render(g):
     a("")
     a("/-- the relay `connect()`s its UDP socket to the target -/")
     a(f"def udpConnected : Bool := {'true' if g['udpConnected'] else 'false'}")
+    a("")
+    a("/-- the test by which the server's stream handler takes a destination for a UDP-over-TCP stream -/")
+    a("inductive MagicRule where")
+    a("  | contains         -- the host name contains `udp-over-tcp.arpa` anywhere")
+    a("  | reservedSuffix   -- the host name is `udp-over-tcp.arpa` or ends in `.udp-over-tcp.arpa`")
+    a("  deriving DecidableEq, Repr")
+    a("")
+    a(f"def udpMagicRule : MagicRule := .{g['udpMagicRule']}")
+    a("")
+    a("/-- the destination the client opens for a UDP association (`UDP_OVER_TCP_MAGIC_ADDR`) -/")
+    a("def udpMagicAddr : List Char := [" + ", ".join("'" + c + "'" for c in g["udpMagicAddr"]) + "]")
     a("")
     a("/-- how `handle_connection` awaits `authenticate_client` before it builds the session -/")
     a("inductive AuthGate where")
